@@ -118,6 +118,50 @@ def main():
                 bad += 1
                 if bad <= 8:
                     print(f"  FAIL {kind}: Partial.at {p} = {a}, after as_expression() = {b}")
+    # the very same Point object handed in again after shared nodes were used elsewhere
+    for kind in kinds:
+        for p, q in itertools.permutations(points, 2):
+            e, shared = make(kind)
+            fresh_e, fresh_shared = make(kind)
+            P, Q = sm.Point(**p), sm.Point(**q)
+            for first, second, ff in ((shared, e, fresh_shared), (e, shared, fresh_e)):
+                outcome(lambda: first.at(P))
+                outcome(lambda: second.at(Q))
+                got = outcome(lambda: first.at(P))
+                want = outcome(lambda: ff.at(sm.Point(**p)))
+                if got != want:
+                    bad += 1
+                    if bad <= 8:
+                        print(f"  FAIL {kind}: at(P) with P={p}; another expression sharing nodes at {q}; at(P) with the same Point object: got {got}, fresh gives {want}")
+    # operands that are distinct objects with equal structure; the same object at two points
+    from smoothmath.expression import Constant, Exponential
+    for outer in (Minus, Divide, Power, Add, Multiply):
+        for a, b in itertools.permutations([1.0, 2.0, 0.5], 2):
+            mk = lambda: outer(Add(Variable("x"), Constant(1)), Add(Variable("x"), Constant(1)))
+            z = mk()
+            outcome(lambda: z.at(a))
+            got = (outcome(lambda: z.at(b)), outcome(lambda: sm.Derivative(z).at(b)))
+            zz = mk()
+            want = (outcome(lambda: zz.at(b)), outcome(lambda: sm.Derivative(zz).at(b)))
+            if got != want:
+                bad += 1
+                if bad <= 8:
+                    print(f"  FAIL {outer.__name__}(u, u') with u == u' built separately: at {a} then at {b}: got {got}, fresh gives {want}")
+    # a call that raises part-way must leave nothing behind
+    for kind in kinds:
+        for p, q in itertools.permutations(points, 2):
+            e, shared = make(kind)
+            for op in (lambda o, pt: o.at(sm.Point(**pt)), lambda o, pt: sm.Partial(o, "x").at(sm.Point(**pt))):
+                first = outcome(lambda: op(e, p))
+                if first[0] == "value":
+                    continue
+                got = outcome(lambda: e.at(sm.Point(**q)))
+                fe, _ = make(kind)
+                want = outcome(lambda: fe.at(sm.Point(**q)))
+                if got != want:
+                    bad += 1
+                    if bad <= 8:
+                        print(f"  FAIL {kind}: a call at {p} raised {first}; then at {q}: got {got}, fresh gives {want}")
     print(f"history battery: {bad} disagreement(s)")
     return 1 if bad else 0
 
